@@ -142,6 +142,7 @@ func rcClient(r *Rand, idx int, focus string) ClientSpec {
 		}
 	}
 	cs.Ops = append(cs.Ops, Op{Kind: "close"})
+	cs.ReusePkt = r.Chance(40)
 	return cs
 }
 
@@ -180,7 +181,7 @@ func codecProbeClient(r *Rand, idx int, focus string) ClientSpec {
 			rep.N[0] = 2
 		}
 		st.Reply = &rep
-		if focus == "C03" && r.Chance(20) && pk.Seq < 255 && rep.Sendable() && !(rep.Kind == model.KAuthenReply && nth(rep.N, 0) == 6) {
+		if r.Chance(20) && pk.Seq < 255 && rep.Sendable() && !(rep.Kind == model.KAuthenReply && nth(rep.N, 0) == 6) {
 			// the handler sends through Response.Write with a stale length in its header
 			st.ViaWrite = true
 			st.WrongLen = PickOf(r, uint32(0), 1, 7, 16, 17, uint32(r.Intn(64)))
